@@ -721,7 +721,7 @@ fn check_lex(alpha: &[String], case: &Value, out: &mut CaseOut) -> Result<(), St
     let salt = w.iter().fold(0usize, |h, x| h.wrapping_mul(31).wrapping_add(*x as usize));
     for k in 1..=n {
         // a proper prefix is exercised once: by the word that continues it with first symbols only
-        if k < n && w[k..].iter().any(|x| *x != 1) {
+        if k < n && (case["only_full"] == true || w[k..].iter().any(|x| *x != 1)) {
             continue;
         }
         let c = cut[k - 1] as usize;
@@ -1053,9 +1053,13 @@ fn worker(mode: &str, file: &str, from: usize, to: usize) -> i32 {
 // ---------------------------------------------------------------------------------------------------------------
 // supervisor: child processes over index ranges; an abnormal exit is a violation of the case in flight
 
-fn describe_case(mode: &str, lines: &[String], idx: usize) -> Value {
+fn describe_case(mode: &str, file: &str, lines: &[String], idx: usize) -> Value {
     if mode == "smoke" {
         return json!({"smoke": idx});
+    }
+    if mode == "lex" {
+        let line = std::fs::File::open(file).ok().and_then(|f| BufReader::new(f).lines().nth(idx + 1)).and_then(Result::ok);
+        return line.and_then(|l| serde_json::from_str::<Value>(&l).ok()).unwrap_or(json!({"index": idx}));
     }
     match lines.get(idx + 1).and_then(|l| serde_json::from_str::<Value>(l).ok()) {
         Some(mut v) => {
@@ -1074,13 +1078,21 @@ fn describe_case(mode: &str, lines: &[String], idx: usize) -> Value {
 
 fn supervise(mode: &str, file: &str) -> i32 {
     let exe = std::env::current_exe().expect("own path");
-    let lines: Vec<String> = std::fs::read_to_string(file).map(|s| s.lines().map(String::from).collect()).unwrap_or_default();
-    if lines.is_empty() {
+    // the lexical family is large: count its lines, fetch one only when a crash has to be described
+    let lines: Vec<String> = if mode == "lex" {
+        let n = std::fs::File::open(file).map(|f| BufReader::new(f).lines().count()).unwrap_or(0);
+        vec![String::new(); n.min(1)].into_iter().chain(std::iter::once(format!("{n}"))).collect()
+    } else {
+        std::fs::read_to_string(file).map(|s| s.lines().map(String::from).collect()).unwrap_or_default()
+    };
+    if lines.is_empty() || (mode == "lex" && lines.last().map(String::as_str) == Some("0")) {
         println!("{}", json!({"tool_error": "empty case file"}));
         return 2;
     }
     let n = if mode == "smoke" {
         serde_json::from_str::<Value>(&lines[0]).ok().and_then(|h| h["smoke_n"].as_u64()).unwrap_or(0) as usize
+    } else if mode == "lex" {
+        lines.last().and_then(|s| s.parse::<usize>().ok()).unwrap_or(1) - 1
     } else {
         lines.len() - 1
     };
@@ -1117,17 +1129,19 @@ fn supervise(mode: &str, file: &str) -> i32 {
                     tail.join("\n")
                 });
                 let mut last: Option<usize> = None;
+                let mut started = 0u64;
                 let mut finished = false;
                 let mut stuck = false;
                 for l in BufReader::new(child.stdout.take().unwrap()).lines().map_while(Result::ok) {
                     if let Some(rest) = l.strip_prefix('#') {
                         last = rest.parse().ok();
+                        started += 1;
                         continue;
                     }
                     let Ok(v) = serde_json::from_str::<Value>(&l) else { continue };
                     let mut a = agg.lock().unwrap();
                     if v.get("summary").is_some() || v.get("partial").is_some() {
-                        for k in ["cases", "parses", "texts", "accepted", "variants", "mismatches"] {
+                        for k in ["parses", "texts", "accepted", "variants", "mismatches"] {
                             a.0[k] = json!(a.0[k].as_u64().unwrap() + v[k].as_u64().unwrap_or(0));
                         }
                         a.0["max_case_ms"] = json!(a.0["max_case_ms"].as_u64().unwrap().max(v["max_case_ms"].as_u64().unwrap_or(0)));
@@ -1142,6 +1156,10 @@ fn supervise(mode: &str, file: &str) -> i32 {
                     }
                 }
                 let status = child.wait().expect("wait worker");
+                {
+                    let mut a = agg.lock().unwrap();
+                    a.0["cases"] = json!(a.0["cases"].as_u64().unwrap() + started);
+                }
                 let tail = err_thread.join().unwrap_or_default();
                 if finished && status.success() {
                     break;
@@ -1160,7 +1178,7 @@ fn supervise(mode: &str, file: &str) -> i32 {
                     let mut a = agg.lock().unwrap();
                     a.1 += 1;
                     a.0["mismatches"] = json!(a.0["mismatches"].as_u64().unwrap() + 1);
-                    println!("{}", json!({"mismatch": if stuck { "timeout" } else { "crash" }, "case": describe_case(&mode, &lines, idx), "variant": "-", "text": "", "detail": what}));
+                    println!("{}", json!({"mismatch": if stuck { "timeout" } else { "crash" }, "case": describe_case(&mode, &file, &lines, idx), "variant": "-", "text": "", "detail": what}));
                 }
                 from = idx + 1;
                 restarts += 1;
